@@ -55,6 +55,8 @@ def run_one(prop_id, tier, seed, repo, quiet=False):
     ev, vp = report.write_evidence(prop_id, spec, ctx, new, known, tier, seed, wall, program, roles, repo, extra)
     for v, k in known:
         out.append('KNOWN-FINDING: property=%s %s at %s: %s [%s]' % (prop_id, v.construct, v.loc, k.get('what', v.message), v.rule))
+    for e in getattr(ctx, 'rule_errors', []):
+        out.append('NOTE: rule not evaluated (anchor lost): %s' % e)
     for v in new:
         out.append('FINDING %s %s %s -- %s' % (v.rule, v.loc, v.construct, v.message))
     out.append('summary: %d instances, %d ok, %d unproven, %d known findings, %d new violations, %.2fs'
